@@ -20,3 +20,51 @@ package topics
 //@   nopanic [C05]
 //@   ensures [C05] sound: result1 ==> nameDefined(t, clientID, result0) && nameSpec(t, clientID, result0) == topic
 //@   ensures [C05] none_zero: !result1 ==> result0 == 0
+
+// ---- C30: building the mapping (file, then options; later definitions win) ----
+// The raw two-level map: has(t, c, id) / at(t, c, id). (The "*" fallback of lookups is C05.)
+//@ spec has(t PredefinedTopics, c string, id uint16) bool = c in t && id in t[c]
+//@ spec at(t PredefinedTopics, c string, id uint16) string = t[c][id]
+
+//@ func (PredefinedTopics).Add
+//@   nopanic [C30]
+//@   requires [C30] allocated: t != nil && (forall c string :: c in t ==> t[c] != nil)
+//@   requires [C30] unshared: forall c1 string, c2 string :: c1 != c2 && c1 in t && c2 in t ==> t[c1] != t[c2]
+//@   assigns map(t), map(t[clientID])
+//@   ensures [C30] keeps_unshared: forall c1 string, c2 string :: c1 != c2 && c1 in t && c2 in t ==> t[c1] != t[c2]
+//@   ensures [C30] defined_last_wins: has(t, clientID, topicID) && at(t, clientID, topicID) == topicName
+//@   ensures [C30] others_untouched: forall c string, id uint16 :: (c != clientID || id != topicID) ==> has(t, c, id) == old(has(t, c, id)) && (old(has(t, c, id)) ==> at(t, c, id) == old(at(t, c, id)))
+//@   ensures [C30] keeps_allocated: forall c string :: c in t ==> t[c] != nil
+
+// Merge: entry by entry, src wins. (Inner maps of t and src must be distinct objects: Merge itself makes t
+// share the inner maps of clients it did not know; the tools merge once, into a map they have just built.)
+//@ pred innerOK(t PredefinedTopics) = t != nil && (forall c string :: c in t ==> t[c] != nil) &&
+//@      (forall c1 string, c2 string :: c1 != c2 && c1 in t && c2 in t ==> t[c1] != t[c2])
+//@ func (PredefinedTopics).Merge
+//@   nopanic [C30]
+//@   requires [C30] t_ok: innerOK(t)
+//@   requires [C30] src_ok: forall c1 string, c2 string :: c1 != c2 && c1 in src && c2 in src ==> src[c1] != src[c2]
+//@   requires [C30] separate: t != src && (forall c1 string, c2 string :: c1 in t && c2 in src ==> t[c1] != src[c2])
+//@   assigns *
+//@   loop 0 invariant [C30] defined: forall c string, id uint16 :: has(t, c, id) == (old(has(t, c, id)) || ((c in visited) && old(has(src, c, id))))
+//@   loop 0 invariant [C30] src_wins: forall c string, id uint16 :: (c in visited) && old(has(src, c, id)) ==> at(t, c, id) == old(at(src, c, id))
+//@   loop 0 invariant [C30] rest_kept: forall c string, id uint16 :: !((c in visited) && old(has(src, c, id))) && old(has(t, c, id)) ==> at(t, c, id) == old(at(t, c, id))
+//@   loop 0 invariant [C30] src_same: forall c string :: (c in src) == old(c in src) && src[c] == old(src[c])
+//@   loop 0 invariant [C30] src_entries_same: forall c string, id uint16 :: old(c in src) ==> (id in old(src[c])) == old(id in src[c]) && old(src[c])[id] == old(src[c][id])
+//@   loop 0 invariant [C30] shape: t != nil && (forall c string :: (c in t) == (old(c in t) || ((c in visited) && old(c in src)))) &&
+//@      (forall c string :: old(c in t) ==> t[c] == old(t[c])) && (forall c string :: (c in visited) && !old(c in t) && old(c in src) ==> t[c] == old(src[c]))
+//@   loop 1 invariant [C30] inner_defined: forall id uint16 :: has(t, clientID, id) == (old(has(t, clientID, id)) || ((id in visited) && old(has(src, clientID, id))))
+//@   loop 1 invariant [C30] inner_src_wins: forall id uint16 :: (id in visited) && old(has(src, clientID, id)) ==> at(t, clientID, id) == old(at(src, clientID, id))
+//@   loop 1 invariant [C30] inner_rest_kept: forall id uint16 :: !((id in visited) && old(has(src, clientID, id))) && old(has(t, clientID, id)) ==> at(t, clientID, id) == old(at(t, clientID, id))
+//@   loop 1 invariant [C30] inner_others: (forall c string, id uint16 :: c != clientID ==> has(t, c, id) == (old(has(t, c, id)) || ((c in outervisited) && old(has(src, c, id))))) &&
+//@      (forall c string, id uint16 :: c != clientID && (c in outervisited) && old(has(src, c, id)) ==> at(t, c, id) == old(at(src, c, id))) &&
+//@      (forall c string, id uint16 :: c != clientID && !((c in outervisited) && old(has(src, c, id))) && old(has(t, c, id)) ==> at(t, c, id) == old(at(t, c, id)))
+//@   loop 1 invariant [C30] inner_target_separate: t != src && (forall c string :: old(c in src) ==> t[clientID] != old(src[c])) && (forall c string :: c != clientID && (c in t) ==> t[c] != t[clientID])
+//@   loop 1 invariant [C30] inner_src_same: forall c string :: (c in src) == old(c in src) && src[c] == old(src[c])
+//@   loop 1 invariant [C30] inner_src_entries_same: forall c string, id uint16 :: old(c in src) ==> (id in old(src[c])) == old(id in src[c]) && old(src[c])[id] == old(src[c][id])
+//@   loop 1 invariant [C30] inner_shape: t != nil && old(clientID in t) && old(clientID in src) && (clientID in outervisited) &&
+//@      (forall c string :: (c in t) == (old(c in t) || ((c in outervisited) && c != clientID && old(c in src)))) &&
+//@      (forall c string :: old(c in t) ==> t[c] == old(t[c])) && (forall c string :: (c in outervisited) && c != clientID && !old(c in t) && old(c in src) ==> t[c] == old(src[c]))
+//@   ensures [C30] defined: forall c string, id uint16 :: has(t, c, id) == (old(has(t, c, id)) || old(has(src, c, id)))
+//@   ensures [C30] src_wins: forall c string, id uint16 :: old(has(src, c, id)) ==> at(t, c, id) == old(at(src, c, id))
+//@   ensures [C30] rest_kept: forall c string, id uint16 :: !old(has(src, c, id)) && old(has(t, c, id)) ==> at(t, c, id) == old(at(t, c, id))
